@@ -1,6 +1,7 @@
 package main
 
 import (
+	"encoding/json"
 	"fmt"
 	"math/rand"
 	"sort"
@@ -24,6 +25,14 @@ type c03class struct {
 
 func c03Sweep(ctx *RunCtx, rep *Report, short bool, pr combination.PowerRankings, table string, permute bool, allOrders bool) {
 	shortTable := table == "shortdeck"
+	// a game restored from JSON carries its own copy of the ranking table: same content, other memory
+	var prCopy combination.PowerRankings
+	if b, err := json.Marshal(pr); err == nil {
+		json.Unmarshal(b, &prCopy)
+	}
+	if len(prCopy) != len(pr) {
+		prCopy = append(combination.PowerRankings{}, pr...)
+	}
 	deck := baseDeck(short)
 	n := len(deck)
 	type res struct {
@@ -71,10 +80,12 @@ func c03Sweep(ctx *RunCtx, rep *Report, short bool, pr combination.PowerRankings
 								}
 								for o := 0; o < orders; o++ {
 									copy(p, h)
+									tbl := pr
 									if o == 1 {
 										r.Shuffle(5, func(i, j int) { p[i], p[j] = p[j], p[i] })
+										tbl = prCopy
 									}
-									ps := combination.CalculatePower(pr, p)
+									ps := combination.CalculatePower(tbl, p)
 									le++
 									cl.scores[ps.Score]++
 									if ps.Combination != catToCombination[rh.Cat] {
